@@ -24,7 +24,7 @@ CATALOGUE = [
     ("cell_len-cache-by-length", "C13", "cells.py", "    cached_result = _cache.get(text, None)", "    cached_result = _cache.get(text[:40], None)"),
     ("adjust_line_length-le", "C13", "segment.py", "if line_length + segment_length < length or segment.is_control:", "if line_length + segment_length <= length + 1 or segment.is_control:"),
     # ---- C18
-    ("downgrade-cube-round", "C18", "color.py", "16 + 36 * round(red * 5.0) + 6 * round(green * 5.0) + round(blue * 5.0)", "16 + 36 * round(red * 5.0) + 6 * round(green * 5.0) + round(blue * 6.0)"),
+    ("downgrade-cube-round", "C18", "color.py", "16 + 36 * round(red * 5.0) + 6 * round(green * 5.0) + round(blue * 5.0)", "16 + 36 * round(red * 6.0) + 6 * round(green * 5.0) + round(blue * 5.0)"),
     ("bright-bg-offset", "C18", "color.py", "            fore, back = (30, 40) if number < 8 else (82, 92)\n            return (str(fore + number if foreground else back + number),)\n\n        elif _type == ColorType.STANDARD:", "            fore, back = (30, 40) if number < 8 else (82, 93)\n            return (str(fore + number if foreground else back + number),)\n\n        elif _type == ColorType.STANDARD:"),
     ("palette-distance-weights", "C18", "palette.py", "+ 4 * green * green", "+ 3 * green * green"),
     # ---- C06
